@@ -37,6 +37,47 @@ class Obligation:
         self.aux = aux  # auxiliary obligations never produce a VIOLATION by themselves
 
 
+def is_succ(e):
+    """e is syntactically  t + 1."""
+    return z3.is_app(e) and e.decl().kind() == z3.Z3_OP_ADD and e.num_args() == 2 and z3.is_int_value(e.arg(1)) and e.arg(1).as_long() == 1
+
+
+def ok_pattern(t, j):
+    """A term usable as an E-matching pattern: uninterpreted/select applications only, mentioning the bound variable."""
+    if not z3.is_app(t) or z3.is_const(t):
+        return False
+    seen_j = False
+    stack = [t]
+    while stack:
+        x = stack.pop()
+        if z3.is_quantifier(x) or not z3.is_app(x):
+            return False
+        k = x.decl().kind()
+        if k not in (z3.Z3_OP_UNINTERPRETED, z3.Z3_OP_SELECT):
+            return False
+        if x.get_id() == j.get_id():
+            seen_j = True
+        stack.extend(x.children())
+    return seen_j
+
+
+def unify_ty(a, b):
+    if a == b:
+        return a
+    if a == NONE_T:
+        return OPT(strip_opt(b))
+    if b == NONE_T:
+        return OPT(strip_opt(a))
+    if a[0] == "opt" or b[0] == "opt":
+        u = unify_ty(strip_opt(a), strip_opt(b))
+        return OPT(u) if u != ANY else ANY
+    if a[0] == b[0] and a[0] in ("seq", "set"):
+        return (a[0], a[1] if b[1] == ANY else b[1] if a[1] == ANY else unify_ty(a[1], b[1]))
+    if a[0] == b[0] == "dict":
+        return ("dict", a[1] if b[1] == ANY else b[1] if a[1] == ANY else unify_ty(a[1], b[1]), a[2] if b[2] == ANY else b[2] if a[2] == ANY else unify_ty(a[2], b[2]))
+    return ANY
+
+
 class Executor:
     """Symbolic executor for one function (and the contracts it touches)."""
 
@@ -67,12 +108,13 @@ class Executor:
             ax += smt.heap_wellformed(self.heap0) + smt.alloc_closure(self.heap0)
         return ax
 
-    def feasible(self, st: St, extra=None, timeout=1500) -> bool:
+    def feasible(self, st: St, extra=None, timeout=400) -> bool:
         """False only when the path condition is certainly unsatisfiable."""
         if not self.check_feasible:
             return True
         s = z3.Solver()
         s.set("timeout", timeout)
+        s.set("smt.auto_config", False)
         s.set("smt.mbqi", False)  # E-matching only: quick `unsat`, otherwise `unknown` (= keep the path)
         s.add(*self.axioms())
         s.add(*st.pc)
@@ -82,6 +124,8 @@ class Executor:
         return s.check() != z3.unsat
 
     def oblige(self, name, kind, st: St, goal, info=None, aux=False):
+        info = dict(info or {})
+        info.setdefault("path", " ".join(st.notes))
         self.obligations.append(Obligation(name, kind, st.pc, goal, info, aux))
 
     # ------------------------------------------------------------------ name resolution
@@ -93,6 +137,8 @@ class Executor:
         spec = self.project.spec_functions.get(name)
         if spec is not None:
             return PyVal(spec, name)
+        if hasattr(self.project.spec_module, name):
+            return lift(getattr(self.project.spec_module, name), name)
         if hasattr(builtins, name):
             return PyVal(getattr(builtins, name), name)
         raise Unsupported(f"unresolved name {name}")
@@ -274,12 +320,7 @@ class Executor:
         if isinstance(a, TupVal) and isinstance(b, TupVal) and len(a.items) == len(b.items):
             return TupVal([self.merge(cond, x, y, st) for x, y in zip(a.items, b.items)])
         ta, tb = to_v(a, st), to_v(b, st)
-        ty = a.ty if isinstance(a, Val) and isinstance(b, Val) and a.ty == b.ty else ANY
-        if isinstance(a, Val) and isinstance(b, Val) and a.ty != b.ty:
-            if a.ty == NONE_T:
-                ty = OPT(strip_opt(b.ty))
-            elif b.ty == NONE_T:
-                ty = OPT(strip_opt(a.ty))
+        ty = unify_ty(a.ty, b.ty) if isinstance(a, Val) and isinstance(b, Val) else ANY
         return Val(z3.If(cond, ta, tb), ty)
 
     def ev_UnaryOp(self, e, st):
@@ -355,15 +396,19 @@ class Executor:
         return eq(a, b, s)
 
     def set_eq(self, a, b, s):
-        k = z3.Const(smt.fresh_name("sk"), V)
+        k = z3.Const(smt.push_binder("sk"), V)
+        smt.pop_binder()
         h = s.heap
         return z3.ForAll([k], h.c["sh"][a.t][k] == h.c["sh"][b.t][k])
 
     def dict_eq(self, a, b, s):
-        k = z3.Const(smt.fresh_name("dk"), V)
+        k = z3.Const(smt.push_binder("dk"), V)
         h = s.heap
         vty = a.ty[2] if len(a.ty) > 2 else ANY
-        same = eq(Val(h.c["dv"][a.t][k], vty), Val(h.c["dv"][b.t][k], vty), s)
+        try:
+            same = eq(Val(h.c["dv"][a.t][k], vty), Val(h.c["dv"][b.t][k], vty), s)
+        finally:
+            smt.pop_binder()
         return z3.ForAll([k], z3.And(h.c["dh"][a.t][k] == h.c["dh"][b.t][k], z3.Implies(h.c["dh"][a.t][k], same)))
 
     def ev_BinOp(self, e, st):
@@ -487,9 +532,8 @@ class Executor:
         else:
             t = smt.attr_func(attr)(base.t)
         v = Val(t, ty)
-        if ty == INT:
-            pass
-        s.assume(*type_facts(v, s))
+        if not self.pure_depth:
+            s.assume(*type_facts(v, s))
         if ty == BOOL:
             return BVal(t == smt.TRUE)
         return v
@@ -581,7 +625,10 @@ class Executor:
             n = base.len
             hi = as_int(self.ev1(sl.upper, s)) if sl.upper is not None else n
             lo_i = as_int(lo)
-            yield s, SeqView(hi - lo_i, lambda i, b=base, lo_i=lo_i: b.at(i + lo_i), base.elem_ty, base.facts)
+            if z3.is_int_value(lo_i) and lo_i.as_long() == 0:
+                yield s, SeqView(hi, base.at, base.elem_ty, base.facts, keys=base.keys, index_of=base.index_of)
+            else:
+                yield s, SeqView(hi - lo_i, lambda i, b=base, lo_i=lo_i: b.at(i + lo_i), base.elem_ty, base.facts)
             return
         if not isinstance(base, Val) or strip_opt(base.ty)[0] != "seq":
             raise Unsupported(f"slice of {base!r}")
@@ -594,17 +641,20 @@ class Executor:
         lo_c = z3.If(lo_i > hi, hi, lo_i)
         ety = base.ty[1]
         arr = h.c["sa"][base.t]
-        yield s, SeqView(hi - lo_c, lambda i: Val(arr[i + lo_c], ety), ety)
+        if z3.is_int_value(lo_i) and lo_i.as_long() == 0:
+            yield s, SeqView(hi, lambda i: Val(arr[i], ety), ety)
+        else:
+            yield s, SeqView(hi - lo_c, lambda i: Val(arr[i + lo_c], ety), ety)
 
     # ---- comprehensions -----------------------------------------------------------------
-    def comp_binder(self, gen: ast.comprehension, s: St):
+    def comp_binder(self, gen: ast.comprehension, s: St, bound=False):
         """Bind the target of one `for` clause to a symbolic element; returns (index var, guard, env update)."""
         if gen.is_async:
             raise Unsupported("async comprehension")
         it = self.ev1(gen.iter, s)
         view = self.iter_view(it, s)
         s.assume(*view.facts)
-        j = z3.Int(smt.fresh_name("q"))
+        j = z3.Int(smt.push_binder("q") if bound else smt.fresh_name("q"))
         elem = view.at(j)
         guard = z3.And(0 <= j, j < view.len)
         return j, guard, elem, view
@@ -642,11 +692,18 @@ class Executor:
         gens = e.generators
         s = st.fork()
         self.pure_depth += 1
+        pushed = 0
+        last_len = None
+        elem_terms = []
         try:
             binders, guards = [], []
             for g in gens:
-                j, guard, elem, view = self.comp_binder(g, s)
+                j, guard, elem, view = self.comp_binder(g, s, bound=True)
+                last_len = view.len
+                pushed += 1
                 self.bind_target(g.target, elem, s)
+                et = elem.t if isinstance(elem, Val) else None
+                elem_terms.append(et if et is not None and ok_pattern(et, j) else None)
                 binders.append(j)
                 guards.append(guard)
                 for c in g.ifs:
@@ -654,12 +711,31 @@ class Executor:
             body = truth(self.ev1(e.elt, s), s)
         finally:
             self.pure_depth -= 1
+            for _ in range(pushed):
+                smt.pop_binder()
         st.pc[:] = s.pc  # facts about views
         st.heap = s.heap
         st.fresh[:] = s.fresh
         g = z3.And(*guards)
+        # prefix extended by one element (loop step): split off the last index explicitly, so that the solver need not
+        # discover the case split  j < t  vs  j == t  by itself
+        if len(binders) == 1 and last_len is not None and is_succ(last_len):
+            t = last_len.arg(0)
+            j = binders[0]
+            g_rest = z3.And(*[x for x in guards[1:]]) if len(guards) > 1 else z3.BoolVal(True)
+            at_t = z3.substitute(z3.And(g_rest, body) if kind == "any" else z3.Implies(g_rest, body), (j, t))
+            lo = z3.And(0 <= j, j < t)
+            pats0 = [elem_terms[0]] if elem_terms and elem_terms[0] is not None else None
+            if kind == "all":
+                q = z3.ForAll([j], z3.Implies(z3.And(lo, g_rest), body), patterns=pats0) if pats0 else z3.ForAll([j], z3.Implies(z3.And(lo, g_rest), body))
+                return z3.And(q, z3.Implies(t >= 0, at_t))
+            q = z3.Exists([j], z3.And(lo, g_rest, body))
+            return z3.Or(q, z3.And(t >= 0, at_t))
+        pats = []
+        if len(binders) == 1 and elem_terms and elem_terms[0] is not None:
+            pats = [elem_terms[0]]
         if kind == "all":
-            return z3.ForAll(binders, z3.Implies(g, body))
+            return z3.ForAll(binders, z3.Implies(g, body), patterns=pats) if pats else z3.ForAll(binders, z3.Implies(g, body))
         return z3.Exists(binders, z3.And(g, body))
 
     def ev_ListComp(self, e, st):
